@@ -38,16 +38,52 @@ namespace XALAN_CPP_NAMESPACE {
 
 
 
+/**
+ * The DOMSupport of a transformation whose source document was built by
+ * another XercesParserLiaison (the one owned by the parsed source).  Only
+ * that liaison can map the source document to its wrapper, so a query that
+ * the transformation's own liaison cannot answer is passed on to it.
+ */
+class XALAN_TRANSFORMER_EXPORT XercesDOMParsedSourceDOMSupport : public XercesDOMSupport
+{
+public:
+
+    XercesDOMParsedSourceDOMSupport(
+            XercesParserLiaison&        theLiaison,
+            const XercesParserLiaison*  theSourceLiaison);
+
+    virtual
+    ~XercesDOMParsedSourceDOMSupport();
+
+    virtual const XalanDOMString&
+    getUnparsedEntityURI(
+            const XalanDOMString&   theName,
+            const XalanDocument&    theDocument) const;
+
+private:
+
+    const XercesParserLiaison* const    m_sourceLiaison;
+};
+
+
+
 class XALAN_TRANSFORMER_EXPORT XercesDOMParsedSourceHelper : public XalanParsedSourceHelper
 {
 public:
 
-    XercesDOMParsedSourceHelper(MemoryManager& theManager XALAN_DEFAULT_CONSTRUCTOR_MEMMGR);
+    /**
+     * @param theSourceLiaison the liaison that built the source document, if it is not the helper's own
+     */
+    XercesDOMParsedSourceHelper(
+            MemoryManager&              theManager XALAN_DEFAULT_CONSTRUCTOR_MEMMGR,
+            const XercesParserLiaison*  theSourceLiaison = 0);
 
     ~XercesDOMParsedSourceHelper();
 
     static XercesDOMParsedSourceHelper*
-    create(MemoryManager& theManager);
+    create(
+            MemoryManager&              theManager,
+            const XercesParserLiaison*  theSourceLiaison = 0);
 
     virtual DOMSupport&
     getDOMSupport();
@@ -62,7 +98,7 @@ private:
     // instance.
     XercesParserLiaison     m_parserLiaison;
 
-    XercesDOMSupport        m_domSupport;
+    XercesDOMParsedSourceDOMSupport     m_domSupport;
 };
 
 
